@@ -189,8 +189,21 @@ def _gen_ops(w, tags, depth, budget, allow_fault_free=True):
             ops.append(["scope", w.pick(["io", "io", "out", "err", "sec"]), w.pick(["set", "inc"]),
                         w.pick([0, 1, 2, 3, 4, 7]), _gen_ops(w, tags, depth + 1, budget)])
         elif k == "probe":
+            spec = _style_spec(w)
+            prev = [o[2] for o in ops if o[0] in ("probe", "add_style")]
+            if prev and w.chance(0.5):
+                # a sibling of an earlier style: one attribute or one colour differs (what a cache
+                # keyed too coarsely, or state shared between styles, would confuse)
+                base = w.pick(prev)
+                spec = [base[0], base[1], list(base[2])]
+                which = w.randrange(3)
+                if which == 0:
+                    a = w.pick(ATTRS)
+                    spec[2] = [x for x in spec[2] if x != a] if a in spec[2] else spec[2] + [a]
+                else:
+                    spec[which - 1] = w.pick(COLORS)
             ops.append(["probe", w.pick(["registered", "added", "single", "single_io", "single_out"]),
-                        _style_spec(w), w.pick(["plain text", "x", "Zeile"]), w.randrange(4)])
+                        spec, w.pick(["plain text", "x", "Zeile"]), w.randrange(4)])
         elif k == "raise":
             ops.append(["raise"])
         elif k == "try":
